@@ -503,12 +503,16 @@ def fan_programs(rng, n):
     return out
 
 
-def _body(rng, kind, prefix, allow_amplify):
-    """A loop body over `$in`; returns (nodes, out ref)."""
+def _body(rng, kind, prefix, allow_amplify, force=None):
+    """A loop body over `$in`; returns (nodes, out ref).  force: an operator kind the body must contain."""
     nodes = []
     cur = "$in"
-    for j in range(rng.choice([1, 2, 3, 4])):
+    ln = rng.choice([1, 2, 3, 4])
+    at = rng.randrange(ln)
+    for j in range(ln):
         opk = rng.choice(["map", "map_st", "map_st", "filter", "shuffle", "flat", "gbsum", "gbwin"])
+        if force and j == at:
+            opk = force
         nid = f"{prefix}b{j}"
         if opk == "map":
             nodes.append({"id": nid, "op": "map", "f": rng.choice(MAPS), "in": [cur]})
@@ -537,15 +541,15 @@ def _body(rng, kind, prefix, allow_amplify):
     return nodes, cur
 
 
-def loop_programs(rng, n, nested=True, side=False):
+def loop_programs(rng, n, nested=True, side=False, force=None):
     """C10 / C11: replay and iterate with varied bodies, bounds and conditions; nested loops; side
     inputs (an outside stream joined / merged / zipped with the loop stream inside the body)."""
     out = []
     for i in range(n):
         kind = rng.choice(["replay", "replay", "iterate"])
         fam = rng.choice([("sum", "sum"), ("max", "max"), ("count", "count")])
-        nodes = [{"id": "s", "op": "src", "kind": "par_range", "lo": 0, "hi": rng.choice([0, 1, 6, 15])}]
-        body, bout = _body(rng, kind, "L_", allow_amplify=(kind == "replay"))
+        nodes = [{"id": "s", "op": "src", "kind": "par_range", "lo": 0, "hi": rng.choice([0, 1, 6, 15] if not force else [7, 15, 22])}]
+        body, bout = _body(rng, kind, "L_", allow_amplify=(kind == "replay"), force=force)
         loop = {"id": "L", "op": kind, "rounds": rng.choice([1, 2, 3, 5]), "init": rng.choice([0, 1, 7]),
                 "lfold": fam[0], "gfold": fam[1], "cond": rng.choice(["always", "always", "lt1000", "lt100"]),
                 "body": body, "out": bout, "in": ["s"]}
